@@ -25,7 +25,7 @@ type compiled struct {
 
 func c01(r *rep.Run) {
 	coreMax, richMax := 7, 6
-	r.SetBudget(100e9)
+	r.SetBudget(300e9)
 	if r.Thorough() {
 		coreMax, richMax = 8, 7
 		r.SetBudget(1500e9)
@@ -38,20 +38,19 @@ func c01(r *rep.Run) {
 	}
 	r.Cov["bounds"] = map[string]int{"core_max_nodes": coreMax, "rich_max_nodes": richMax}
 
-	progs := Programs(Core(), []term.Ty{B}, coreMax)
-	nCore := len(progs)
-	progs = append(progs, Programs(Rich(), []term.Ty{B, I}, richMax)...)
+	// hand-written, wide and one-node programs first (few; covered even if the
+	// run is cut short by its budget), then the enumerated ones
+	progs := append(loneLeafPrograms(), extraPrograms()...)
 	progs = append(progs, widePrograms(6)...)
-	progs = append(progs, extraPrograms()...)
+	core := Programs(Core(), []term.Ty{B}, coreMax)
+	nCore := len(core)
+	progs = append(progs, core...)
+	progs = append(progs, Programs(Rich(), []term.Ty{B, I}, richMax)...)
 	progs = withMerged(progs, 5)
-	progs = append(progs, loneLeafPrograms()...)
 	r.Cov["programs_core"] = nCore
 	r.Cov["programs_rich"] = len(progs) - nCore
 
-	hs := make([]*drive.Harness, r.Workers)
-	for i := range hs {
-		hs[i] = drive.NewHarness()
-	}
+	hs := harnesses(r.Workers)
 	var outcomes [3]int64 // value, sentinel error, other error
 	evModes := 2
 	if r.Thorough() {
